@@ -92,7 +92,7 @@ FNAME = "main"  # `f` is an external function
 INT_EXT = "fghk"
 BOOL_EXT = "cpq"
 PY_TICKS = 120
-MODEL_FUEL = 20000
+MODEL_FUEL = 3000  # cap; per run: 200 + the step budget given to the real-CFG interpreter
 
 
 # ============================================================================ profile (C05 overrides this)
@@ -327,6 +327,12 @@ def struct_facts(cfg) -> list[str]:
         bad.append("reachable-flag-is-graph-reachability")
     if any(b.reachable and not b.successors and b is not cfg.exit_bb for b in bbs):
         bad.append("reachable-nonexit-has-successor")
+    if any(b is not cfg.entry_bb and not b.predecessors and not b.dummy_predecessors for b in bbs):
+        bad.append("every-block-has-a-real-or-dummy-predecessor")
+    if any(p not in s.dummy_predecessors for p in bbs for s in p.dummy_successors) or any(
+        s not in p.dummy_successors for s in bbs for p in s.dummy_predecessors
+    ):
+        bad.append("dummy-predecessor-lists-mirror-dummy-successor-lists")
     if cfg.exit_bb.successors or cfg.exit_bb.statements:
         bad.append("exit-is-empty-sink")
     if any(p not in s.predecessors for p in bbs for s in p.successors) or any(
@@ -912,8 +918,11 @@ class Gen:
             if self.unsafe:
                 return e
             fl = hs_expr(e) | (_sib([*pre, e]) if pre else set())
-            if not (fl & {"chain", "sibling"}):
-                return e
+            if fl & {"chain", "sibling"}:
+                continue
+            if self.profile == "c05" and _ < 3 and not _has_call(e):
+                continue  # C05: prefer expressions that perform calls
+            return e
         return self.bool_expr(0, env) if boolean else self.int_atom(env)
 
     def cond(self, env):
@@ -1063,8 +1072,7 @@ class Gen:
         body, _ = self.block(d - 1, benv, True)
         self.loopdepth -= 1
         if head is None:
-            brk = ast.If(self.expr(benv if r.random() < 0.5 else set(env), True, d=1),
-                         [ast.Break()], [])
+            brk = ast.If(self.expr(set(env), True, d=1), [ast.Break()], [])
             pos = r.randint(0, len(body))
             body = body[:pos] + [brk] + body[pos:]
         else:
@@ -1170,12 +1178,13 @@ def eval_real(source: str, rn: int, inputs, profile=Profile) -> dict:
     for inp in inputs:
         args = dict(zip(PARAMS, inp))
         o_py = py.run(args)
-        run = {"args": args, "py": o_py, "cfg": None, "agree": None}
+        run = {"args": args, "py": o_py, "cfg": None, "agree": None, "budget": 0}
         if o_py.kind != "nofuel":
             if prog is None:
                 o_cfg = Outcome("malformed", "block-not-executable: " + res["cfg_compile_error"])
             else:
-                o_cfg = prog.run(args, budget=2 * (o_py.ticks + 2) * (prog.n + 2))
+                run["budget"] = 2 * (o_py.ticks + 2) * (prog.n + 2)
+                o_cfg = prog.run(args, budget=run["budget"])
             run["cfg"] = o_cfg
             run["agree"] = profile.project(o_cfg.key()) == profile.project(o_py.key())
         res["runs"].append(run)
@@ -1227,7 +1236,7 @@ def _split_run_reply(s: str):
 
 def _cmp_run(model_out: str, o: Outcome):
     """None = skipped, True/False = compared"""
-    if model_out == "nofuel" or o is None or o.kind == "nofuel":
+    if model_out in ("nofuel", "err unsupported") or o is None or o.kind == "nofuel":
         return None
     if o.kind == "err" and o.value == "unbound":
         return None  # the model's store defaults unbound variables
@@ -1250,8 +1259,9 @@ def model_phase(ctx, results, profile=Profile):
         slots.append((i, "build", None))
         if res["status"] == "ok":
             for j, run in enumerate(res["runs"]):
-                if run["py"].kind != "nofuel":
-                    lines.append(f"(run {res['rn']} {res['request']} {run_args_sx(run['args'])} {MODEL_FUEL})")
+                if run["py"].kind == "res":
+                    fuel = min(MODEL_FUEL, 200 + run["budget"])
+                    lines.append(f"(run {res['rn']} {res['request']} {run_args_sx(run['args'])} {fuel})")
                     slots.append((i, "run", j))
     replies = ctx.driver(DRIVER, lines) if lines else []
     hs_of = {}
